@@ -732,7 +732,40 @@ def aimed_cases(pl):
         ([pl + 3, 2 * pl], [("trunc", 1, 0)]),                         # zero bytes on disk, last, not on a boundary
         ([7, pl], [("trunc", 0, 0)]),                                  # zero bytes on disk, first
         ([pl, 3 * pl], [("trunc", 1, 2 * pl)]),                        # boundary, then a file short by a whole piece
+        # an ABSENT EMPTY file that is not the first file, with the damage in a file that sorts after it (the hand-over of
+        # HashChecker.next_file must go on to the following files)
+        ([100, 0, 100], [("rm", 1), ("flip", 2, 50)]),
+        ([pl + 1, 0, 0, 5], [("rm", 1), ("rm", 2), ("trunc", 3, 0)]),
+        ([2 * pl + 5, 0, pl + 9], [("rm", 1), ("trunc", 2, pl + 1)]),  # between two multi-piece files, last one short
+        ([0, 3, 0, 2 * pl], [("rm", 0), ("rm", 2), ("flip", 3, 2 * pl - 1)]),
+        ([pl, 0, 7], [("rm", 1), ("rm", 2)]),                          # boundary, absent empty, absent last
     ]
+
+
+P128, P64 = 131072, 65536
+
+
+def blockcount_cases(tier):
+    """
+    v2/hybrid layouts (piece length 64 KiB / 128 KiB = 4 / 8 blocks per piece) in which a file SHORTER than one piece, or the
+    LAST piece of a longer file, has a block count that is not a power of two (3, 5, 6, 7 blocks; exact, one byte less, one
+    byte into the last block): the padding of the per-file merkle tree (FileHasher._pad_remaining) versus metafiles that
+    were not written through FileHasher.  (pl, sizes, damage, damage variant also in the quick C16 run?)
+    """
+    out = [
+        (P128, [2 * B + 1, 5 * B - 1, 6 * B, 7 * B - 1], [("trunc", 3, 4 * B + 1)], False),
+        (P64, [3 * B, P64 + 3 * B - 1], [("flip", 1, P64 + 3 * B - 2)], True),
+        (P128, [P128 + 5 * B + 1, 6 * B - 1], [("flip", 0, P128 + 5 * B)], False),
+    ]
+    if tier == "thorough":
+        for k in (3, 5, 6, 7):
+            out.append((P128, [(k - 1) * B + 1, k * B - 1, k * B], [("flip", 1, k * B - 2), ("trunc", 2, (k - 1) * B)], True))
+            out.append((P128, [P128 + k * B - 1, 3], [("trunc", 0, P128 + B + 1)], True))
+        out.append((P64, [2 * B + 1, 3 * B - 1, 3 * B, P64 + 2 * B + 1, 2 * P64 + 3 * B], [("rm", 2), ("flip", 4, 2 * P64)], True))
+    return out
+
+
+BLOCKCOUNT_KINDS = ["ref-v2", "hybrid-class", "ref-hybrid", "v2-class", "v2-asm", "hybrid-asm"]
 
 
 def apply_desc(files, desc):
